@@ -18,6 +18,7 @@ type Sched struct {
 	e          *Env
 	Execute    *ssa.Function // (*Node).Execute
 	IsReady    *ssa.Function
+	CountDown  bool                   // the counter counts slots left (limit − running) instead of running nodes
 	Counter    *ssa.Function          // by role: the function whose result the launch gate compares with maxActiveRuns (set by c15Gate)
 	IsSucceed  *ssa.Function          // by role: the predicate of Status() that walks the nodes (set by c04StatusTable)
 	Launch     *ssa.Go                // the unique `go` whose closure reaches Execute
@@ -148,6 +149,51 @@ func (e *Env) resolveSched() *Sched {
 			}
 		}
 	}
+	if s.LoopNode == nil {
+		// the node travels inside a small struct handed to the worker
+		// (`go sc.runStep(ctx, stepRun{node: node, ...})`): the node is what the literal
+		// stores into its *Node field; in the worker it is that field of the parameter
+		nodeT := e.P.Pkg(schedRel).Pkg.Path() + ".Node"
+		for i, a := range s.Launch.Call.Args {
+			st, isS := derefT(a.Type()).Underlying().(*types.Struct)
+			if !isS || i >= len(s.Worker.Params) {
+				continue
+			}
+			fi := -1
+			for k := 0; k < st.NumFields(); k++ {
+				if ir.NamedType(st.Field(k).Type()) == nodeT {
+					if _, isP := st.Field(k).Type().(*types.Pointer); isP {
+						fi = k
+					}
+				}
+			}
+			if fi < 0 {
+				continue
+			}
+			var al *ssa.Alloc
+			switch x := ir.Resolve(a).(type) {
+			case *ssa.UnOp:
+				al, _ = x.X.(*ssa.Alloc)
+			case *ssa.Alloc:
+				al = x
+			}
+			if al == nil {
+				continue
+			}
+			for _, ref := range *al.Referrers() {
+				if fa, ok := ref.(*ssa.FieldAddr); ok && fa.Field == fi {
+					for _, r2 := range *fa.Referrers() {
+						if sv, ok := r2.(*ssa.Store); ok && sv.Addr == ssa.Value(fa) {
+							s.LoopNode = ir.Resolve(sv.Val)
+						}
+					}
+				}
+			}
+			if s.LoopNode != nil {
+				s.WorkerNode = workerFieldRead(s.Worker, s.Worker.Params[i], fi)
+			}
+		}
+	}
 	if s.LoopNode == nil || s.WorkerNode == nil {
 		e.R.Unknown("launch site node argument", e.InstrPos(s.Launch), "cannot identify the *Node handed to the worker goroutine")
 		return s
@@ -265,7 +311,20 @@ func (s *Sched) isStatusOf(node ssa.Value) func(ssa.Value) bool {
 		if !ok || !p.Suffix("State.Status") {
 			return false
 		}
-		return node == nil || SameValue(p.Root, node) || sameElem(p.Root, node)
+		if node == nil || sameNode(p.Root, node) {
+			return true
+		}
+		// the node is itself a field of a small struct (`run.node`): the path of the
+		// status read starts with the path of the node
+		if np, okn := s.e.C.PathOf(node); okn && len(np.Fields) > 0 && len(p.Fields) > len(np.Fields) && ir.Resolve(np.Root) == ir.Resolve(p.Root) {
+			for i, f := range np.Fields {
+				if p.Fields[i] != f {
+					return false
+				}
+			}
+			return true
+		}
+		return false
 	}
 }
 
@@ -313,7 +372,28 @@ func sameNode(root, node ssa.Value) bool {
 	if root == nil || node == nil {
 		return false
 	}
-	return SameValue(root, node) || sameElem(root, node)
+	if SameValue(root, node) || sameElem(root, node) {
+		return true
+	}
+	// a path root is an address with the loads stripped (`&run.node`); the node value
+	// may be the load of that address
+	strip := func(v ssa.Value) ssa.Value {
+		for {
+			u, ok := v.(*ssa.UnOp)
+			if !ok || u.Op != token.MUL {
+				return v
+			}
+			v = u.X
+		}
+	}
+	a, b := strip(ir.Resolve(root)), strip(ir.Resolve(node))
+	if a == b {
+		return true
+	}
+	// two reads of the same field of the same base
+	fa, okA := a.(*ssa.FieldAddr)
+	fb, okB := b.(*ssa.FieldAddr)
+	return okA && okB && fa.Field == fb.Field && ir.Resolve(fa.X) == ir.Resolve(fb.X)
 }
 
 // isHandlerNode reports whether v is a node taken from the scheduler's handler
@@ -480,4 +560,43 @@ func (s *Sched) cases(ev ir.StoreEvent) ([]evCase, bool) {
 		return nil, false
 	}
 	return out, true
+}
+
+// workerFieldRead: the value of field fi of the struct parameter p as the worker
+// reads it (the first read; repeated reads of the same field are the same value).
+func workerFieldRead(w *ssa.Function, p *ssa.Parameter, fi int) ssa.Value {
+	var cell ssa.Value
+	for _, ref := range *p.Referrers() {
+		switch x := ref.(type) {
+		case *ssa.Field:
+			if x.Field == fi {
+				return x
+			}
+		case *ssa.FieldAddr:
+			if x.Field == fi {
+				for _, r2 := range *x.Referrers() {
+					if u, ok := r2.(*ssa.UnOp); ok {
+						return u
+					}
+				}
+			}
+		case *ssa.Store:
+			// a parameter spilled to a local: reads go through the local
+			if x.Val == ssa.Value(p) {
+				cell = x.Addr
+			}
+		}
+	}
+	if al, ok := cell.(*ssa.Alloc); ok {
+		for _, ref := range *al.Referrers() {
+			if fa, ok := ref.(*ssa.FieldAddr); ok && fa.Field == fi {
+				for _, r2 := range *fa.Referrers() {
+					if u, ok := r2.(*ssa.UnOp); ok {
+						return u
+					}
+				}
+			}
+		}
+	}
+	return nil
 }
